@@ -198,7 +198,12 @@ def run_case(case):
                 out, _ = pdq.jetexpand_ode_doubling_unroll(num_doublings=num)(vf, inits, t=t0)
             elif rname == "residual":
                 residual = make_residual(case, vf, f, jnp, pdq)
-                out, info = pdq.jetexpand_residual(num=num)(residual, inits, t=t0)
+                # default Gauss-Newton (tol 1e-6, maxiter 10) and a tightened one through the public argument
+                out_d, info = pdq.jetexpand_residual(num=num)(residual, inits, t=t0)
+                rec["iters_default"] = int(info["iters"]) if "iters" in info else None
+                rec["out_default"] = extract(case, out_d, np)
+                tight = pdq.lstsq_constrained_gauss_newton(tol=1e-13, maxiter=40)
+                out, info = pdq.jetexpand_residual(num=num, nlstsq=tight)(residual, inits, t=t0)
                 rec["iters"] = int(info["iters"]) if "iters" in info else None
             else:
                 raise RuntimeError("harness: routine")
